@@ -93,4 +93,18 @@ theorem config_reads_pinned :
       ["vrf_with_stake.go:validateProve:common.LocalChainConfig.Proposal025Block",
        "vrf_with_stake.go:validateProve:common.GetRewardBlocks"] := by decide
 
+/-- The consensus-side VRF functions never write through a parameter (caller-owned header fields / byte
+    slices), with the single recorded exception that `calQn` caps its `stakeRatio` argument in place (a fresh
+    `*big.Rat` made by its only caller). In particular `genVrfMsg` does not write into `random`
+    (= the parent header's `Random`). go/ast, aliases followed through `x := p`, `x = p[:k]`, `x = append(x, …)`. -/
+theorem param_writes_pinned :
+    C16Sites.paramWrites =
+      [("vrf_with_stake.go", "calQn", "calls stakeRatio.Set (receiver is a parameter)")] := by decide
+
+/-- The slot count is derived from the block's time and the PARENT's time on both sides (never from the
+    header's own, unchecked `PreTime` field). -/
+theorem slot_times_pinned :
+    C16Sites.calDeltaCallArgs =
+      ["verifyBlockVRF(bh.CurTime, preBH.CurTime)", "genProve(castTime, vrfWorker.baseBH.CurTime)"] := by decide
+
 end Rangers.Props.C16Gen
